@@ -109,6 +109,10 @@ impl FromStr for Isd {
     /// ISD 0 is parsed without any errors.
     #[inline]
     fn from_str(string: &str) -> Result<Self, Self::Err> {
+        // `u16::from_str` accepts a leading `+`, which is not part of the ISD format.
+        if string.starts_with('+') {
+            return Err(AddressParseError::Isd);
+        }
         u16::from_str(string)
             .map(Isd::new)
             .or(Err(AddressParseError::Isd))
